@@ -24,7 +24,7 @@ def noalloc_pred(cfg, lines, obs):
     return [(o.idx, f'SmallSet that never held more than N={cfg.n} elements made {o.allocs} allocator request(s)') for o in obs if o.allocs != 0][:1]
 
 def run(ctx):
-    ok = ctx.lean(['AmcVerif.Props.C05', 'AmcVerif.Props.C05b'], extra_modules=['AmcVerif.Bridge.VecGlueBridge'])
+    ok = ctx.lean(['AmcVerif.Props.C05', 'AmcVerif.Props.C05b', 'AmcVerif.Props.C05c'], extra_modules=['AmcVerif.Bridge.VecGlueBridge', 'AmcVerif.Bridge.SmallSetBridge'])
     n = 80 if ctx.tier == 'quick' else 600
     if not ok:
         n *= 3
